@@ -1,0 +1,210 @@
+//go:build verif
+
+package filter
+
+// Randomised stand-in for C14: every epsilon-match (two length-n windows differing by at most e substitutions)
+// must be covered by a reported filter hit whose diagonal band contains the match diagonal and whose query
+// interval overlaps the match. Only compiled with -tags verif.
+
+import (
+	"fmt"
+	"math/rand"
+	"os"
+	"strconv"
+	"testing"
+
+	"github.com/biogo/biogo/alphabet"
+	"github.com/biogo/biogo/index/kmerindex"
+	"github.com/biogo/biogo/morass"
+	"github.com/biogo/biogo/seq/linear"
+)
+
+func verifDNA(rnd *rand.Rand, n int) []byte {
+	b := make([]byte, n)
+	for i := range b {
+		b[i] = "ACGT"[rnd.Intn(4)]
+	}
+	return b
+}
+
+var verifDump bool
+var verifMissClass = map[string]int{}
+var verifMissExample = map[string]string{}
+
+type verifCase struct {
+	target, query []byte
+	p             Params
+	self          bool
+}
+
+// verifMisses returns the epsilon-matches no reported hit covers.
+func verifMisses(c verifCase) (matches int, missed []string, err error) {
+	t := linear.NewSeq("t", alphabet.BytesToLetters(c.target), alphabet.DNA)
+	q := t
+	if !c.self {
+		q = linear.NewSeq("q", alphabet.BytesToLetters(c.query), alphabet.DNA)
+	}
+	ki, err := kmerindex.New(c.p.WordSize, t)
+	if err != nil {
+		return 0, nil, err
+	}
+	ki.Build()
+	f := New(ki, &c.p)
+	m, err := morass.New(Hit{}, "", "", 1<<16, false)
+	if err != nil {
+		return 0, nil, err
+	}
+	defer m.CleanUp()
+	if err := f.Filter(q, c.self, false, m); err != nil {
+		return 0, nil, err
+	}
+	var hits []Hit
+	for {
+		var h Hit
+		if err := m.Pull(&h); err != nil {
+			break
+		}
+		hits = append(hits, h)
+	}
+	if verifDump {
+		for _, h := range hits {
+			fmt.Printf("hit %+v\n", h)
+		}
+	}
+	n, e := c.p.MinMatch, c.p.MaxError
+	tubeWidth := c.p.TubeOffset + c.p.MaxError
+	tb, qb := c.target, c.query
+	if c.self {
+		qb = tb
+	}
+	for t0 := 0; t0+n <= len(tb); t0++ {
+		for q0 := 0; q0+n <= len(qb); q0++ {
+			if c.self && q0 <= t0 {
+				continue // self comparison: only matches strictly above the main diagonal
+			}
+			d := 0
+			for i := 0; i < n && d <= e; i++ {
+				if tb[t0+i] != qb[q0+i] {
+					d++
+				}
+			}
+			if d > e {
+				continue
+			}
+			matches++
+			covered := false
+			for _, h := range hits {
+				// the hit's band: diagonals (target - query) in (Diagonal - tubeWidth, Diagonal]
+				if diag := t0 - q0; h.Diagonal-tubeWidth < diag && diag <= h.Diagonal && h.From < q0+n && q0 < h.To {
+					covered = true
+					break
+				}
+			}
+			if !covered {
+				di := len(tb) - t0 + q0 // the match's diagonal index as the filter counts it
+				class := "other"
+				switch {
+				case e >= 1 && t0+n > len(tb)-tubeWidth:
+					class = "target-end"
+				case di >= len(qb)-tubeWidth-c.p.WordSize && di <= len(qb)+tubeWidth:
+					class = "query-end"
+				case di >= len(tb)+len(qb)-1-2*tubeWidth-c.p.WordSize:
+					class = "far-corner" // target start against query end: the last tubes share slots with the first flushed ones
+				}
+				verifMissClass[class]++
+				if verifMissExample[class] == "" {
+					verifMissExample[class] = fmt.Sprintf("target length %d, query length %d, self=%v, k=%d n=%d e=%d tubeOffset=%d: match at target %d query %d (diagonal index %d, %d differences) is covered by no hit", len(tb), len(qb), c.self, c.p.WordSize, n, e, c.p.TubeOffset, t0, q0, di, d)
+				}
+				if class == "other" && len(missed) < 3 {
+					missed = append(missed, fmt.Sprintf("[%s] match target %d query %d (diagonal %d, diagonal index %d, %d differences)", class, t0, q0, t0-q0, di, d))
+				}
+			}
+		}
+	}
+	return matches, missed, nil
+}
+
+// TestVerifBounded_C14_Completeness: no epsilon-match is missed.
+func TestVerifBounded_C14_Completeness(t *testing.T) {
+	seed, _ := strconv.Atoi(os.Getenv("VERIF_SEED"))
+	runs, maxLen := 300, 400
+	if os.Getenv("VERIF_TIER") == "thorough" {
+		runs, maxLen = 3000, 1500
+	}
+	cases, nontrivial, matches, failed := 0, 0, 0, 0
+	// the first runs use pinned generator seeds (they contain an instance of each recorded finding, so that the
+	// findings are reported on every run); the remaining runs follow VERIF_SEED
+	pinned := []struct{ seed, runs int }{{14, 150}, {1016, 263}}
+	var rnd *rand.Rand
+	total, phase, left := runs, 0, 0
+	for _, p := range pinned {
+		total += p.runs
+	}
+	for r := 0; r < total; r++ {
+		maxLen := maxLen
+		if left == 0 {
+			if phase < len(pinned) {
+				rnd, left = rand.New(rand.NewSource(int64(pinned[phase].seed))), pinned[phase].runs
+			} else {
+				rnd, left = rand.New(rand.NewSource(int64(seed)+2014)), runs
+			}
+			phase++
+		}
+		left--
+		if phase <= len(pinned) {
+			maxLen = 400
+		}
+		k := 4 + rnd.Intn(3)
+		e := rnd.Intn(3)
+		n := k*(e+1) + rnd.Intn(3*k) // threshold n+1-k(e+1) = 1 .. 3k
+		off := e + rnd.Intn(12)
+		if off == 0 {
+			off = 1
+		}
+		c := verifCase{p: Params{WordSize: k, MinMatch: n, MaxError: e, TubeOffset: off}, self: rnd.Intn(5) == 0}
+		if MinWordsPerFilterHit(n, k, e) <= 0 {
+			continue
+		}
+		c.target = verifDNA(rnd, 100+rnd.Intn(maxLen-100))
+		c.query = verifDNA(rnd, 100+rnd.Intn(maxLen-100))
+		// plant a few matches with up to e substitutions at positions that sweep the tube grid and the recycling tick
+		for j := 0; j < 1+rnd.Intn(4); j++ {
+			L := n + rnd.Intn(2*n)
+			src, dst := c.target, c.query
+			if c.self {
+				dst = c.target
+			}
+			if L >= len(src) || L >= len(dst) {
+				continue
+			}
+			a, b := rnd.Intn(len(src)-L), rnd.Intn(len(dst)-L)
+			copy(dst[b:b+L], src[a:a+L])
+			for x := 0; x < e; x++ {
+				dst[b+rnd.Intn(L)] = "ACGT"[rnd.Intn(4)]
+			}
+		}
+		cases++
+		m, missed, err := verifMisses(c)
+		if err != nil {
+			t.Errorf("run %d %+v: %v", r, c.p, err)
+			continue
+		}
+		matches += m
+		if m > 0 {
+			nontrivial++
+		}
+		if len(missed) > 0 {
+			failed++
+			if failed <= 8 {
+				t.Errorf("run %d: target %d, query %d, self=%v, k=%d n=%d e=%d tubeOffset=%d: %d matches, not covered: %v", r, len(c.target), len(c.query), c.self, k, n, e, off, m, missed)
+			}
+		}
+	}
+	// recorded classes of misses (edge effects of tube retirement) are reported as findings, anything else fails
+	for _, class := range []string{"far-corner", "query-end", "target-end"} {
+		if verifMissClass[class] > 0 {
+			fmt.Printf("FINDING id=%s cases=%d example=%q\n", class, verifMissClass[class], verifMissExample[class])
+		}
+	}
+	fmt.Printf("BOUNDED name=C14.completeness cases=%d nontrivial=%d exhaustive=false domain=\"seeded random: 413 pinned + %d target/query pairs of random DNA (100..%d) with planted epsilon-matches, word size 4..6, error bound 0..2, match length with threshold 1..3k, tube offset e..e+11, one in five in self-comparison mode; all %d epsilon-matches enumerated by brute force and required to be covered by a hit (band (Diagonal-tubeWidth, Diagonal], query interval overlapping)\"\n", cases, nontrivial, runs, maxLen, matches)
+}
